@@ -13,7 +13,7 @@ def shapes(tier):
     J = []
     kinds = ("once", "periodic", "keyed")
     # three actions, origin patterns with at least two sharing an origin; the environment runs spawned tasks in ANY order
-    pats = [(0, 0, 0), (0, 0, 1), (0, 1, 0), (1, 0, 0), (1, 1, 2), (1, 2, 1), (2, 2, 2)]
+    pats = [(0, 0, 0), (0, 0, 1), (0, 1, 0), (1, 0, 0), (0, 1, 1), (1, 1, 2), (1, 2, 1), (1, 2, 2), (2, 2, 2)]
     for pat in pats:
         for ks in itertools.product(("once", "periodic"), repeat=3):
             nper = sum(1 for k in ks if k == "periodic")
@@ -26,6 +26,15 @@ def shapes(tier):
     for o in (0, 1):
         J.append(job([S("periodic", 1, origin=o), S("periodic", 2, origin=o), STEP, STEP, STEP], permute=True))
         J.append(job([S("periodic", 1, origin=o), S("once", 2, origin=o, dl="rel"), S("periodic", 3, origin=o), UNTIL("abs")], permute=True, max_steps=2))
+    # coinciding same-origin actions whose sends have to suspend (full mailbox): every sub-future of the sequential future may
+    # answer Pending once; all of them must still run, in order
+    for o in (0, 1):
+        for ks in (("once", "once", "once"), ("periodic", "once", "periodic"), ("once", "keyed", "once")):
+            J.append(job([S(ks[0], 1, origin=o), S(ks[1], 2, origin=o), S(ks[2], 3, origin=o), STEP, STEP], permute=True, pending=True))
+            J.append(job([S(ks[0], 1, origin=o), S(ks[1], 2, origin=o), S(ks[2], 3, origin=o), S("once", 4, origin=o), STEP],
+                         pending=True, tie=[0, 1, 2, 3]))
+            if "periodic" not in ks:
+                J.append(job([S(ks[0], 1, origin=o), S(ks[1], 2, origin=o), S(ks[2], 3, origin=o), UNTIL("abs")], pending=True, max_steps=2))
     # keyed + handler-scheduled
     for k in kinds:
         eff = dict(op="sched", kind="once", dl="abs", id=3)
